@@ -377,6 +377,7 @@ class Executor(object):
         s.max_steps = max_steps
         s.max_rss_mb = int(os.environ.get('VERIF_MAX_RSS_MB', '3500'))
         s.child_first = False
+        s.nundef = 0
         s.heap_shift = 0
         s.budget_tick = 0
         s.max_paths = max_paths
@@ -1368,6 +1369,9 @@ class Executor(object):
                 v = inc[prev]
                 if type(v) is str:
                     v = regs[v]
+                elif type(v) is tuple and v and v[0] == 'UNDEF':
+                    s.nundef += 1
+                    v = X.var('Gundef%d' % s.nundef, v[1])
                 vals.append((dst, v))
             for dst, v in vals:
                 regs[dst] = v
